@@ -358,16 +358,14 @@ impl<Storage: KalmanStorageInternal<C>, C: Clock> KalmanControllerState<Storage,
                     actual_frequency_steer - cur_frequency_steer,
                 )?;
             } else {
-                clock_info
-                    .clock
-                    .step_clock(Duration::from_f64_seconds(-offset))?;
+                // Absorb exactly the step the clock was asked to make: the conversion
+                // to a duration quantizes and saturates the requested step.
+                let step = Duration::from_f64_seconds(-offset);
+                clock_info.clock.step_clock(step)?;
                 if index == 0 {
-                    filter = filter.absorb_system_clock_offset_change(
-                        clock_info.id,
-                        Duration::from_f64_seconds(-offset),
-                    )?;
+                    filter = filter.absorb_system_clock_offset_change(clock_info.id, step)?;
                 } else {
-                    filter = filter.absorb_offset_change(clock_info.id, -offset)?;
+                    filter = filter.absorb_offset_change(clock_info.id, step.as_seconds())?;
                 }
             }
 
